@@ -197,6 +197,12 @@ def main_check(pid, tier, seed, replay=None):
         for w in want:
             if not any(t == w or t.endswith("." + w) for t in thms):
                 broken.append({"kind": "missing-theorem", "name": w, "detail": "required theorem not found in compiled environment"})
+    rechecked = None
+    if ok_build and tier == "thorough":
+        ok_lc, lclog = leanio.leanchecker(mod.LEAN_MODULES)
+        rechecked = ok_lc
+        if not ok_lc:
+            broken.append({"kind": "leanchecker", "name": " ".join(mod.LEAN_MODULES), "detail": lclog})
     obligations = len(thms) if thms else len(getattr(mod, "REQUIRED_THEOREMS", [])) or 1
     discharged = sum(1 for t, axs in thms.items() if all(a in leanio.ALLOWED_AXIOMS for a in axs))
 
@@ -303,14 +309,14 @@ def main_check(pid, tier, seed, replay=None):
                 "searched_cases": res.evaluations, "seed": seed})
             nrep += 1; violations += 1
             print(f"VIOLATION property={pid} replay={path} no-failing-input-found")
-    _write_evidence(mod, tier, seed, t0, res, thms, obligations, discharged, sites, known_seen, violations, broken)
+    _write_evidence(mod, tier, seed, t0, res, thms, obligations, discharged, sites, known_seen, violations, broken, rechecked)
     print(f"{pid} tier={tier} seed={seed}: theorems {discharged}/{obligations}, cases {res.evaluations} "
           f"(nontrivial {len(res.nontrivial_ids)}), mismatches {len(res.mismatches)}, "
           f"findings {len(by_key)} (known {len(known_seen)}), violations {violations}, {time.time()-t0:.1f}s")
     return 1 if violations else 0
 
 
-def _write_evidence(mod, tier, seed, t0, res, thms, obligations, discharged, sites, known_seen, violations, broken):
+def _write_evidence(mod, tier, seed, t0, res, thms, obligations, discharged, sites, known_seen, violations, broken, rechecked=None):
     os.makedirs(EVID, exist_ok=True)
     ev = {
         "property_id": mod.PID, "tier": tier, "seed": seed, "level": "proof",
@@ -328,6 +334,7 @@ def _write_evidence(mod, tier, seed, t0, res, thms, obligations, discharged, sit
             "correspondence_mismatches": len(res.mismatches),
             "known_findings_seen": [e["key"] for e in known_seen],
             "broken_obligations": broken,
+            "leanchecker_recheck": rechecked,
         },
         "assumptions": list(getattr(mod, "ASSUMPTIONS", [])),
         "wall_s": round(time.time() - t0, 2),
